@@ -66,6 +66,12 @@ type Solver struct {
 	// uninterpreted functions (with sign/magnitude lemmas): a sound over-approximation
 	// that keeps every query in UFLIA.
 	Abstract bool
+	ufApps   []ufApp
+}
+
+type ufApp struct {
+	op, name, a, b string
+	level       int
 }
 
 func NewSolver(ctx *Ctx, cmd []string) (*Solver, error) {
@@ -112,6 +118,7 @@ func (s *Solver) Restart() error {
 	s.Dead = false
 	s.named = map[*Term]string{}
 	s.byLvl = [][]*Term{nil}
+	s.ufApps = nil
 	return s.start()
 }
 
@@ -147,6 +154,11 @@ func (s *Solver) PopTo(level int) {
 		}
 	}
 	s.byLvl = s.byLvl[:level+1]
+	k := len(s.ufApps)
+	for k > 0 && s.ufApps[k-1].level > level {
+		k--
+	}
+	s.ufApps = s.ufApps[:k]
 	s.level = level
 	s.send(fmt.Sprintf("(pop %d)", n))
 }
@@ -228,6 +240,25 @@ func (s *Solver) ref(t *Term) string {
 		case "umod":
 			s.send(fmt.Sprintf("(assert (=> (> %s 0) (and (>= %s 0) (< %s %s))))", b, name, name, b))
 		}
+		// pairwise monotonicity with earlier applications of the same function (bounded window)
+		lo := len(s.ufApps) - 24
+		if lo < 0 {
+			lo = 0
+		}
+		for _, u := range s.ufApps[lo:] {
+			if u.op != op {
+				continue
+			}
+			switch op {
+			case "umul":
+				s.send(fmt.Sprintf("(assert (and (=> (and (>= %s 0) (>= %s 0) (<= %s %s) (<= %s %s)) (<= %s %s)) (=> (and (>= %s 0) (>= %s 0) (<= %s %s) (<= %s %s)) (<= %s %s))))",
+					u.a, u.b, u.a, a, u.b, b, u.name, name, a, b, a, u.a, b, u.b, name, u.name))
+			case "utdiv", "udiv":
+				s.send(fmt.Sprintf("(assert (and (=> (and (>= %s 0) (> %s 0) (> %s 0) (<= %s %s) (>= %s %s)) (<= %s %s)) (=> (and (>= %s 0) (> %s 0) (> %s 0) (<= %s %s) (>= %s %s)) (<= %s %s))))",
+					u.a, u.b, b, u.a, a, u.b, b, u.name, name, a, b, u.b, a, u.a, b, u.b, name, u.name))
+			}
+		}
+		s.ufApps = append(s.ufApps, ufApp{op, name, a, b, s.level})
 		s.named[t] = name
 		s.byLvl[s.level] = append(s.byLvl[s.level], t)
 		return name
